@@ -59,7 +59,7 @@ func (k Kind) String() string {
 	if int(k) < len(kindNames) {
 		return kindNames[k]
 	}
-	return fmt.Sprintf("kind%d", int(k))
+	return "kind?"
 }
 
 // Msg is what a parking goroutine posts to the scheduler.
